@@ -436,6 +436,14 @@ class Evaluator:
                         r = self.run(st.orelse, env)
                 if r[0] in ("return", "break", "continue"):
                     return r
+            elif isinstance(st, (ast.Import, ast.ImportFrom)):
+                # a function-level import binds a name the fold's harness has to provide (under '__imports__'); nothing is imported
+                provided = env.get("__imports__") or self.env.get("__imports__") or {}
+                for al in st.names:
+                    nm = al.asname or al.name.split(".")[0]
+                    if nm not in provided:
+                        raise Refused(f"import of {al.name}")
+                    env[nm] = provided[nm]
             elif isinstance(st, ast.Break):
                 return ("break", None)
             elif isinstance(st, ast.Continue):
